@@ -640,10 +640,15 @@ class SymInt:
         return self
 
     def __format__(self, spec):
-        return ctx().placeholder(self)
+        return self.__repr__()
 
     def __repr__(self):
-        return ctx().placeholder(self) if _ctx is not None else "<symint>"
+        if _ctx is None:
+            return "<symint>"
+        if self.lo < 0:
+            if self < 0:                       # forks on the sign: the rendering differs
+                return "-" + ctx().placeholder(-self)
+        return ctx().placeholder(self)
 
     __str__ = __repr__
 
